@@ -477,9 +477,39 @@ fn sequential(args: &Args) {
     }
 }
 
+/// The trivial address spaces (`&M`, `Rc<M>`, `Arc<M>`): a "snapshot" is the map itself.
+fn plain_address_spaces() {
+    use vm_memory::GuestAddressSpace;
+    let (m, _w) = initial_map(false);
+    let want = observe(&m, false);
+    let by_ref = (&m).memory();
+    if observe(by_ref, false) != want {
+        v("plain/&M", J::Null);
+    }
+    let rc = std::rc::Rc::new(m);
+    let s1 = rc.memory();
+    if observe(&s1, false) != want || !std::rc::Rc::ptr_eq(&rc, &s1) {
+        v("plain/Rc<M>", J::Null);
+    }
+    drop(s1);
+    let m = std::rc::Rc::try_unwrap(rc).ok().expect("unique");
+    let arc = Arc::new(m);
+    let s2 = arc.memory();
+    if observe(&s2, false) != want || !Arc::ptr_eq(&arc, &s2) {
+        v("plain/Arc<M>", J::Null);
+    }
+    out::key("plain-address-spaces", true);
+    out::eval(3);
+}
+
 pub fn run(args: &Args) {
     out::set_quiet_cases(true);
     let mode = args.str("mode", "all");
+    if mode != "stress" {
+        if let Err(p) = guarded(plain_address_spaces) {
+            v(&format!("panic/plain/{}", panic_sig(&p)), J::s(p));
+        }
+    }
     if mode == "seq" || mode == "all" {
         if let Err(p) = guarded(|| sequential(args)) {
             v(&format!("panic/seq/{}", panic_sig(&p)), J::s(p));
